@@ -7,12 +7,13 @@ package main
 //  stream B  histories through a real Dials (public API) with fake watching sources that reuse their
 //            own memory between reports: every version vs defaults, every value ever reported, every
 //            other version.
-// The heap-level theorems (Props/C02.lean) assume the overlay step is local (OverlayLocal); this
-// oracle is what samples that assumption on the real overlay.go.
+//  streams C, D (c02ov.go)  the real overlay.go / compose vs the heap-level model the `_real` theorems of
+//            Props/C02.lean are about (Model/HeapOverlay.lean).
 
 import (
 	"context"
 	"fmt"
+	"os"
 	"reflect"
 	"strings"
 
@@ -253,8 +254,22 @@ func checkC02(c *Ctx) {
 	res.Rule = "stream A: compose on random config types (as C01) whose defaults and layers have internally shared pointers/maps/slices (spare capacity), 0-4 layers, compose run twice: " +
 		"result vs defaults and every layer (address sets through exported fields must be disjoint), inputs unchanged, the two results equal but disjoint; " +
 		"stream B: histories of 1-8 blocking reports from 1-3 fake watching sources that reuse their own pointers/maps/slices between reports, through a real Dials: after each step the view vs defaults, " +
-		"every value ever returned or reported, every earlier version, and all inputs unchanged. non-trivial: A = at least one layer and at least 2 reference-typed addresses in the result; B = at least 3 reports; distinct = by canonical input text"
+		"every value ever returned or reported, every earlier version, and all inputs unchanged. " +
+		"stream C: VerifOverlay (deep copy of the overlay value + overlayStruct in place) on random config types extended with reference-holding leaves ([]*int, map[string]*int, [2]*int, []map, map[string][]int, a text-unmarshaler struct with a pointer and a slice), " +
+		"base and overlay value with shared pointers/maps/slices inside each and (40% of the cases) across the two, overlay handed over as addressable or plain struct: heap model (hp overlay) == implementation on outcome class, canonical result graph incl. slice identity, " +
+		"the set and new contents of the pre-existing cells that were modified, freshness of what the base newly reaches; oracle: only cells the base reached may be modified, nothing pre-existing becomes newly reachable. " +
+		"stream D: VerifCompose with 0-3 layers sharing memory among defaults and layers vs the heap model of compose (hp compose): same comparison. " +
+		"non-trivial: A = at least one layer and at least 2 reference-typed addresses in the result; B = at least 3 reports; C = outcome ok, the base changed and reaches at least 3 addresses; D = ok, at least one layer, at least 3 addresses; distinct = by canonical input text"
 	nA, nB := c.scale(1500, 40000), c.scale(300, 8000)
+	defer checkC02Overlay(c) // streams C and D (c02ov.go)
+	if only := os.Getenv("C02_STREAMS"); only != "" { // debugging aid: e.g. C02_STREAMS=CD runs the model streams alone
+		if !strings.Contains(only, "A") {
+			nA = 0
+		}
+		if !strings.Contains(only, "B") {
+			nB = 0
+		}
+	}
 	for i := 0; i < nA; i++ {
 		T := genStructType(r, 1+r.Intn(3))
 		if r.Chance(10) {
